@@ -17,9 +17,20 @@ var protectedPointers = []string{"/publicKey", "/service", "/publicKey/0", "/ser
 	"/publicKeyX", "/service2", "/publi", "/servic", "/Service", "/PublicKey", "/publicKey~0", "/~1publicKey", "/service~1x", "publicKey", "/alsoKnownAs", "/alsoKnownAs/0",
 	"x/publicKey", "#/publicKey/0", "x/service", " /publicKey", "publicKey/publicKey/0", "~/service/0", "x/publicKey/0/id", "#/service/-", "//publicKey", "/./publicKey"}
 
+var hostileTokens = []string{"note\n", "\n", "a\tb", "é", "\u2028x", "x\u0000", "x\r\n", " ", "~0", "~1", "%2F", "..", "-", "00", "1e0", "+1", "-1", "\ufeffid"}
+
 func genC11Pointer(t *rapid.T, doc interface{}, label string) string {
-	if rapid.IntRange(0, 2).Draw(t, label+"-protected") == 0 {
+	switch rapid.IntRange(0, 5).Draw(t, label+"-protected") {
+	case 0, 1:
 		return rapid.SampledFrom(protectedPointers).Draw(t, label+"-p")
+	case 2:
+		// a location below a protected member with an unusual last token
+		base := rapid.SampledFrom([]string{"/publicKey", "/service", "/publicKey/0", "/service/0", "/publicKey/0/publicKeyJwk", "/publicKey/1"}).Draw(t, label+"-base")
+		tok := rapid.SampledFrom(hostileTokens).Draw(t, label+"-tok")
+		if rapid.IntRange(0, 3).Draw(t, label+"-randTok") == 0 {
+			tok = genString(t, 4)
+		}
+		return base + "/" + tok
 	}
 	return genPointer(t, doc, label, false)
 }
@@ -83,6 +94,15 @@ func TestC11_IetfCannotTouchKeys(t *testing.T) {
 					if _, err := refPatch6902(work, cand); err == nil {
 						op = cand
 						break
+					}
+				}
+				if op == nil || rapid.IntRange(0, 3).Draw(t, "hostileProtected") == 0 {
+					// add a member below a key/service through an unusual token (applicable: adding a fresh member)
+					base := rapid.SampledFrom([]string{"/publicKey/0", "/publicKey/0/publicKeyJwk", "/service/0"}).Draw(t, "hostileBase")
+					tok := rapid.SampledFrom(hostileTokens).Draw(t, "hostileTok")
+					cand := map[string]interface{}{"op": "add", "path": base + "/" + tok, "value": "injected"}
+					if _, err := refPatch6902(work, cand); err == nil {
+						op = cand
 					}
 				}
 				if op == nil {
